@@ -314,18 +314,18 @@ func init() {
 				o.Obs("requests", 1)
 				st1 := c10State(sys)
 				// a filter that fails closed because of a malformed list entry may say so with a server error instead of 403
-				filterRefusal := w1.Code == 403 || (filtered && dec == 0 && w1.Code >= 500)
+				filterRefusal := w1.Code == 403 || (filtered && (dec == 0 || pol.malformed) && w1.Code >= 500)
 				served := w1.Code != 401 && !filterRefusal && w1.Code != 404
 				body := w1.Body.String()
 				// health endpoint: no token needed, but the IP filter still applies
 				registered := map[string]bool{"/v1/metrics": true, "/v1/backends": true, "/v1/backends/add": true, "/v1/backends/remove": true, "/v1/strategy": true}
 				needAuth := registered[rq.path] && c.Token != ""
-				if !registered[rq.path] && w1.Code != 403 && w1.Code != 404 && w1.Code != 401 {
+				if !registered[rq.path] && !filterRefusal && w1.Code != 404 && w1.Code != 401 {
 					o.Viol("C10|unregistered-path-served", fmt.Sprintf("%s: a path that is not an admin endpoint answered %d %q", ctx, w1.Code, trunc(body, 60)), nil)
 					return
 				}
 				switch {
-				case dec == -1 && w1.Code != 403:
+				case dec == -1 && !filterRefusal:
 					o.Viol("C10|served-refused-peer", fmt.Sprintf("%s: the lists refuse this peer but the answer was %d", ctx, w1.Code), nil)
 					return
 				case dec == 1 && w1.Code == 403:
